@@ -64,6 +64,7 @@ class JoinWorld:
         import transaction
         env.reset_globals()
         from mc import dbworld, hclasses
+        self._hclasses = hclasses
         dbworld.own_hash_order()
         MS = env.mod('ZODB.MappingStorage').MappingStorage
         DB = env.mod('ZODB.DB').DB
@@ -99,6 +100,9 @@ class JoinWorld:
         else:
             self.conns = {n: db.open(self.tm) for n, db in self.dbs.items()}
         self.objs = {}
+        # one new object per connection, for add(): [object, owned,
+        # committed]
+        self.news = {n: [hclasses.P(), False, False] for n in 'ab'}
         if explicit:
             self.tm.begin()
         for n, c in self.conns.items():
@@ -131,6 +135,7 @@ class JoinWorld:
         if self.explicit and self.state == 'none':
             ops.append(('begin',))
         ops += [('mod', 'a'), ('mod', 'b')]
+        ops += [('add', n) for n in 'ab' if not self.news[n][1]]
         if self.state == 'active':
             ops += [('commit',), ('commit-fail',)]
         if self.state in ('active', 'failed'):
@@ -168,9 +173,28 @@ class JoinWorld:
                     return
                 if want is None:
                     self.current[n] = v
+            elif k == 'add':
+                n = op[1]
+                want = {'none': NoTransaction,
+                        'failed': TransactionFailedError}.get(self.state)
+                try:
+                    self.conns[n].add(self.news[n][0])
+                    got = None
+                except (NoTransaction, TransactionFailedError) as e:
+                    got = type(e)
+                if got is not want:
+                    self.bad('join', 'add-%s:%s-instead-of-%s' % (
+                        self.state, getattr(got, '__name__', 'accepted'),
+                        getattr(want, '__name__', 'accepted')), dict(op=op))
+                    self.dead = True
+                    return
+                if want is None:
+                    self.news[n][1] = True
             elif k == 'commit':
                 self.tm.commit()
                 self.committed = dict(self.current)
+                for nw in self.news.values():
+                    nw[2] = nw[1]
                 self.state = idle
             elif k == 'commit-fail':
                 self.tm.get().join(connworld.FailingRM('vote'))
@@ -182,10 +206,14 @@ class JoinWorld:
                 except RuntimeError:
                     pass
                 self.current = dict(self.committed)
+                for nw in self.news.values():
+                    nw[1] = nw[2]
                 self.state = 'failed'
             elif k == 'abort':
                 self.tm.abort()
                 self.current = dict(self.committed)
+                for nw in self.news.values():
+                    nw[1] = nw[2]
                 self.state = idle
             elif k == 'close':
                 # closing the primary: refused while it or its secondary
@@ -194,8 +222,9 @@ class JoinWorld:
                 CSE = env.mod('ZODB.POSException').ConnectionStateError
                 # (a connection takes part from its first modification to
                 # the end - or the failure - of the commit)
-                joined = self.state == 'active' and \
+                joined = self.state == 'active' and (
                     self.current != self.committed
+                    or any(nw[1] != nw[2] for nw in self.news.values()))
                 dirty = False
                 try:
                     self.conns['a'].close()
@@ -213,6 +242,12 @@ class JoinWorld:
                         self.tm.abort()
                         self.current = dict(self.committed)
                         self.state = idle
+                    for n2, nw in self.news.items():
+                        nw[1] = nw[2]
+                        if nw[2]:
+                            # committed: belongs to the old connection
+                            # object; take a fresh one
+                            self.news[n2] = [self._hclasses.P(), False, False]
                     ca = self.dbs['a'].open(self.tm)
                     self.conns = {'a': ca, 'b': ca.get_connection('b')}
                     if self.explicit:
@@ -250,6 +285,15 @@ class JoinWorld:
             elif o._p_changed:
                 self.bad('flags', 'join:dirty-outside-transaction',
                          dict(db=n, state=self.state))
+        # a new object belongs to a connection exactly while its add() is
+        # in force (a refused add() leaves it alone)
+        for n, (o, owned, _) in self.news.items():
+            if (o._p_jar is not None) != owned or \
+                    (o._p_oid is not None) != owned:
+                self.bad('flags', 'join:new-object-%s' % (
+                    'lost' if owned else 'still-attached'),
+                    dict(db=n, state=self.state, jar=repr(o._p_jar),
+                         oid=repr(o._p_oid)))
         # a connection that takes part in no transaction can be closed
         if self.state == 'none':
             for n, c in self.conns.items():
